@@ -147,6 +147,20 @@ func erroneousText(t *rapid.T) string {
 	return sb.String()
 }
 
+// scribble overwrites everything a caller can reach in an assembly result.
+func scribble(wd *gmars.WarriorData) {
+	for i := range wd.Code {
+		wd.Code[i] = gmars.Instruction{Op: gmars.JMP, OpMode: gmars.BA, AMode: gmars.B_INDIRECT, A: 4242, BMode: gmars.IMMEDIATE, B: 17}
+	}
+	if cap(wd.Code) > len(wd.Code) {
+		ext := wd.Code[:cap(wd.Code)]
+		for i := len(wd.Code); i < len(ext); i++ {
+			ext[i] = gmars.Instruction{Op: gmars.SPL, A: 1}
+		}
+	}
+	wd.Name, wd.Author, wd.Strategy, wd.Start = "scribbled", "scribbled", "scribbled", 9999
+}
+
 func runBattleJob(cfg gmars.SimulatorConfig, w1, w2 *gmars.WarriorData, off int) string {
 	sim, err := gmars.NewSimulator(cfg)
 	if err != nil {
@@ -197,7 +211,10 @@ func judgeConcCase(c concCase, rec *hx.Rec) string {
 	asmCfgs[3].CoreSize, asmCfgs[3].ReadLimit, asmCfgs[3].WriteLimit, asmCfgs[3].Distance = 8000+131072, 8000+131072, 8000+131072, 100+65536
 	do := func(j job) string {
 		if j.Kind == "asm" {
-			return wdString(gmars.CompileWarrior(strings.NewReader(c.Texts[j.Text]), asmCfgs[((j.Cfg%4)+4)%4]))
+			wd, err := gmars.CompileWarrior(strings.NewReader(c.Texts[j.Text]), asmCfgs[((j.Cfg%4)+4)%4])
+			res := wdString(wd, err)
+			scribble(&wd) // the result belongs to the caller: writing into it must not show anywhere else
+			return res
 		}
 		if j.Small {
 			return runBattleJob(small, pool[j.W1], pool[j.W2], j.Off%700+50)
@@ -605,11 +622,15 @@ func judgeRepeatCase(c repeatCase, rec *hx.Rec) string {
 		return ""
 	}
 	cfg := asmG(c.Cfg)
-	first := wdString(gmars.CompileWarrior(strings.NewReader(c.Text), cfg))
+	wd0, err0 := gmars.CompileWarrior(strings.NewReader(c.Text), cfg)
+	first := wdString(wd0, err0)
+	scribble(&wd0) // the caller does what it likes with a result: later assemblies must not see it
 	for r := 1; r < c.N; r++ {
-		if got := wdString(gmars.CompileWarrior(strings.NewReader(c.Text), cfg)); got != first {
-			return fmt.Sprintf("assembly %d of the same text under the same configuration gave\n  %s\nthe first gave\n  %s\nsource:\n%s", r+1, clip(got), clip(first), clip(c.Text))
+		wd, err := gmars.CompileWarrior(strings.NewReader(c.Text), cfg)
+		if got := wdString(wd, err); got != first {
+			return fmt.Sprintf("assembly %d of the same text under the same configuration gave\n  %s\nthe first gave\n  %s\n(every result was overwritten by the caller after it had been looked at)\nsource:\n%s", r+1, clip(got), clip(first), clip(c.Text))
 		}
+		scribble(&wd)
 	}
 	if rec != nil {
 		lower := strings.ToLower(c.Text)
